@@ -101,7 +101,7 @@ type rCase struct {
 	cfg            rCfg
 	build          func(wrap func(api.RateFunction) api.RateFunction) (*api.Trigger, error)
 	bodyMaxUs      int
-	bodyFixedUs    int // every body takes this long
+	bodyFixedUs    int    // every body takes this long
 	teardownMode   string // a cleanup registered by the setup fails this way when the run is over
 	failEvery      int
 	mixNames       bool   // consecutive runs on one metrics instance use different scenario names
